@@ -103,6 +103,7 @@ def main(chk, which):
             for e2 in edges:
                 if set(e1) & set(e2): continue
                 jobs.append({'mesh': name, 'op': 6, 'edge': e1, 'swap': (e2[0] << 8) | (e2[1] << 16), 'k': 0, 'edge2': e2})
+                jobs.append({'mesh': name, 'op': 7, 'edge': e1, 'swap': (e2[0] << 8) | (e2[1] << 16), 'k': 0, 'edge2': e2})
                 done += 1
                 break
             if done >= (2 if quick else 6): break
@@ -158,7 +159,7 @@ def main(chk, which):
             merged_flag = None
             if job['op'] == 1:
                 merged_flag = r.iout[0]; ip = 1
-            if job['op'] == 6:
+            if job['op'] in (6, 7):
                 merged_flag = r.iout[0]; ip = 2
                 item['split_done'] = r.iout[1]
             states = []
@@ -195,7 +196,7 @@ def main(chk, which):
     results = par.pmap(work, len(jobs))
     for res in results:
         job = res['job']
-        tag = '%s/%s%s' % (job['mesh'], RC.OPS[job['op']], (' edge %d-%d' % job['edge']) if job['op'] < 3 else ((' merge %d-%d split %d-%d' % (job['edge'] + job['edge2'])) if job['op'] == 6 else ' (<=%d out-of-band)' % job['k']))
+        tag = '%s/%s%s' % (job['mesh'], RC.OPS[job['op']], (' edge %d-%d' % job['edge']) if job['op'] < 3 else ((' merge %d-%d split %d-%d' % (job['edge'] + job['edge2'])) if job['op'] in (6, 7) else ' (<=%d out-of-band)' % job['k']))
         if 'fatal' in res:
             chk.fail_closed.append(tag + ': ' + res['fatal']); continue
         chk.functions |= res['functions']; chk.queries += res['queries']; chk.solver_s += res['solver_s']
@@ -357,7 +358,7 @@ def c11_obligations(job, m, pre, states, r, X, Pm, lmin, Y, ob, item, pc, z2):
         if op == 1 and not performed:
             same = [RC.cyc(f['ids']) for _, f in RC.live_faces(post)] == [RC.cyc(f['ids']) for _, f in RC.live_faces(pre)]
             if not same: viol.append(('rejected merge leaves the mesh unchanged', 'faces changed'))
-    if op == 6:
+    if op in (6, 7):
         tp0 = RC.total_momentum(pre); tp1 = RC.total_momentum(post)
         cl = S.TRUE
         for k in range(3): cl = S.band(cl, S.cmp('eq', tp1[k], tp0[k]))
@@ -404,7 +405,7 @@ def replay_topology(native, job, item, lab, check_orientation=False):
     q = native.call('h_refine', din, iin)
     if q['status'] not in (0, 1) or not q['i']:
         return {'reproduced': False, 'what': 'native run failed: %r' % (q.get('status'),), 'din': din, 'iin': iin}
-    ip = 1 if job['op'] == 1 else (2 if job['op'] == 6 else 0)
+    ip = 1 if job['op'] == 1 else (2 if job['op'] in (6, 7) else 0)
     try:
         states = []
         dp = 0
@@ -430,7 +431,7 @@ def replay_claim(native, job, item, name, model, which, concrete=None):
     pre_q = native.call('h_refine', din, iin_for(m, 5))
     if q['status'] not in (0, 1) or pre_q['status'] != 0:
         return {'reproduced': False, 'what': 'native run failed', 'din': din, 'iin': iin}
-    ip = 1 if job['op'] == 1 else (2 if job['op'] == 6 else 0)
+    ip = 1 if job['op'] == 1 else (2 if job['op'] in (6, 7) else 0)
     dp = 0
     if job['op'] == 4 and q['status'] == 0:
         _, dp, ip = RC.parse_state(q['d'], q['i'], dp, ip)
